@@ -86,7 +86,9 @@ pub fn bkd(args: &[&str]) -> String {
         while let Some((m, a)) = b.next() {
             out.push(format!("{} {}", a, crate::wire::show_msg(&m, 0)));
             guard += 1;
-            if guard > 100_000 {
+            if guard > 3_000 {
+                // a receive loop that never ends: answer with the start of the run only
+                out.truncate(8);
                 out.push("RUNAWAY".into());
                 break;
             }
